@@ -286,12 +286,19 @@ func I4(rc *RC) {
 	}
 	// definition of veclikeDim
 	if txt, _, pos, ok := iCanonText(rc, "tensor.newFlatIterator"); ok {
-		want := "if $ap.IsVectorLike()\n  range $ap.shape as @r\n    if ($ap.shape[@r] != 1)\n      %dim = @r\n      break\n"
+		// the search loop, under a test of the vector-like predicate (directly or through a local
+		// that holds it), whatever else surrounds it
+		loop := regexp.MustCompile(`(?m)^( *)if (\$ap\.IsVectorLike\(\)|%\w+)\n +range \$ap\.shape as @r\n +if \(\$ap\.shape\[@r\] != 1\)\n +%dim = @r\n +break\n`)
 		key := "tensor.newFlatIterator#veclikeDim"
-		if strings.HasPrefix(txt, want) && strings.Contains(txt, "veclikeDim: %dim") {
+		m := loop.FindStringSubmatch(txt)
+		guardOK := m != nil && (m[2] == "$ap.IsVectorLike()" || strings.Contains(txt, m[2]+" = $ap.IsVectorLike()\n"))
+		switch {
+		case m != nil && guardOK && strings.Contains(txt, "veclikeDim: %dim"):
 			rc.S.Ok("I4", key, pos, "veclikeDim = first axis with length != 1")
-		} else {
+		case strings.Contains(txt, "range $ap.shape") || strings.Contains(txt, "veclikeDim:"):
 			rc.S.Viol("I4", key, pos, "veclikeDim is not computed as the first axis whose length is not 1: "+strings.ReplaceAll(txt, "\n", " ; ")).Sig = "veclikeDim definition"
+		default:
+			rc.S.Undec("I4", key, pos, "the search for the non-unit axis is not in the form the rule reads")
 		}
 	} else {
 		rc.S.Undec("I4", "tensor.newFlatIterator#veclikeDim", "-", "unresolved anchor")
